@@ -230,6 +230,19 @@ CHECKS = {
        "final directory.",
   note="Single-threaded so that exactly one call fails (strace counters are per thread). Long runs of identical 4 KiB "
        "copy calls are sampled."),
+ "C11": dict(
+  cat="exploration", ref="DESIGN.md section 3, C11",
+  technique="ThreadSanitizer on the real libovni under concurrent generated workloads with injected schedule perturbation (hook H2), per-thread stream/metadata equality against per-thread client logs, and an init/fini race driver counting winners and refusals",
+  text="libovni is built with gcc -fsanitize=thread. (1) 2-16 threads released from a barrier each run their own random "
+       "op script against one process (init, add-cpu, require, attributes, hundreds to thousands of emits incl. jumbos, "
+       "marks, explicit and automatic flushes, attr_flush, free), with OVNI_VERIF_DELAY perturbation at the hook points "
+       "and OVNI_TMPDIR on and off: no ThreadSanitizer report may have a frame in the library, and every thread's decoded "
+       "stream and metadata (tid, CPUs, attributes, required models) must be exactly what that thread emitted and set. "
+       "(2) 2-16 threads race ovni_proc_init and then ovni_proc_fini; losers are parked in a SIGABRT handler: exactly "
+       "one call must return, N-1 must be refused, each with a diagnostic. Evidence counts distinct completion orders "
+       "and distinct winners as a measure of schedule diversity.",
+  note="TSan reports are collected with halt_on_error=0 and de-duplicated by library entry points; the kernel decides "
+       "the schedules, so this is evidence about the interleavings observed, not all of them."),
 }
 
 NOT_YET = "check not implemented yet in this revision (work in progress, see DESIGN.md section 3)"
